@@ -39,6 +39,10 @@
       kvarn-extensions templates: extract_templates / handle_template (file.slice x2,
         unwrap x5, file[start..position - 1]; file content)             Templates.render         template_engine_never_panics; REPAIRED (176c67e),
                                                                                                  template_engine_v0_refuted
+      clone_preferred: the weights of accept-encoding members (f32::from_str: nan, inf, 1e400, -0 ...;
+        only == 0.0 / != 0.0 / == 1.0, never ordered)                   Panics.ae_answer         accept_encoding_always_answered;
+                                                                                                 weight_order_variant_refuted (a sort by
+                                                                                                 partial_cmp(..).unwrap() would panic)
       is_part_of_origin / check_cors_request                            Cors (total functions)   stage of request_path
       http, time, moka, tokio, compressors, other extensions            not modelled             exploration run only *)
 From Coq Require Import ZArith.
@@ -73,6 +77,26 @@ Proof. exact sanitize_path_no_panic. Qed.
 Theorem fs_path_never_panics : forall host public p : bytes,
   PathSan.sanitize_path p = Ok tt -> PathSan.request_fs_path host public p <> Panic.
 Proof. exact PathSanProofs.request_fs_path_no_panic. Qed.
+
+(** ** Weighted lists: whatever [f32::from_str] makes of a weight text, the page is answered
+
+    [parse_q] is ANY function from weight texts to the three classes the code tests for (zero, one, other): "nan", "inf",
+    "-inf", "1e400", "-0", ".5", "1." are in one of them.  The answer is the 406 page exactly when identity is refused and nothing
+    else applies; else the page's own status with identity or a coding the list names with a weight that is not zero; a page
+    under the 50-byte floor is never compressed. *)
+Theorem accept_encoding_always_answered : forall (parse_q : bytes -> option Negotiate.qclass) (status : N) (big : bool) (ae : option bytes),
+  let values := Negotiate.header_values parse_q ae in
+  (ae_answer parse_q status big ae = (406, Some Negotiate.s_identity) /\ Negotiate.disable_identity values = true)
+  \/ (ae_answer parse_q status big ae = (status, Some Negotiate.s_identity) /\ Negotiate.disable_identity values = false)
+  \/ (exists a, ae_answer parse_q status big ae = (status, Some (Negotiate.alg_name a)) /\ big = true /\
+                Negotiate.contains values (Negotiate.alg_name a) = true).
+Proof. exact ae_answer_cases. Qed.
+
+(** The code never orders the client's weights.  A variant that does — [accepted.sort_by(|a, b| b.quality.partial_cmp(&a.quality)
+    .unwrap())] — panics for exactly the lists of two or more members with a NaN among the weights, e.g. "gzip;q=nan, br". *)
+Theorem weight_order_variant_refuted : forall (A : Type) (l : list (A * fweight)),
+  sort_weights l = Panic <-> (2 <= length l)%nat /\ Exists (fun m => snd m = FNan) l.
+Proof. exact weight_order_variant. Qed.
 
 (** [list_header] has no partial operation (every slice is the [get] form); it yields at most one value
     per ',' plus one, the capacity of its vector. *)
@@ -298,6 +322,21 @@ Example ex_order :
   ex_status (ex_path (Limiter.disable Limiter.default_config) [] [B "GET /x HTTP/1.1"; B "Origin: http://evil"; B "Range: bytes=18-30"]) = Some 403 /\
   ex_path ex_lim [(1, 1)] [B "GET /x HTTP/1.1"] = Ok P429 /\
   ex_path ex_lim [(1, 1); (1, 2); (1, 3); (1, 4)] [B "GET /x HTTP/1.1"] = Ok PDropped.
+Proof. vm_compute. repeat split. Qed.
+(** "gzip;q=nan, br": f32::from_str reads a NaN, which is neither 0.0 nor 1.0 — gzip is acceptable, but zstd is not and br comes
+    first in the server's order; identity refused by a weight of -0 (== 0.0), accepted by "inf" and by "nan"; under the floor only
+    identity or 406; ordering the same weights would panic. *)
+Example ex_weights :
+  Negotiate.parse_q_dec (B "nan") = Some Negotiate.QOther /\ Negotiate.parse_q_dec (B "-0") = Some Negotiate.QZero /\
+  Negotiate.parse_q_dec (B "1e400") = Some Negotiate.QOther /\ Negotiate.parse_q_dec (B "1.") = Some Negotiate.QOne /\
+  Negotiate.parse_q_dec (B "0x1p-1") = None /\
+  ae_answer Negotiate.parse_q_dec 200 true (Some (B "gzip;q=nan, br")) = (200, Some (B "br")) /\
+  ae_answer Negotiate.parse_q_dec 200 true (Some (B "gzip;q=nan")) = (200, Some (B "gzip")) /\
+  ae_answer Negotiate.parse_q_dec 200 true (Some (B "identity;q=-0, gzip;q=0")) = (406, Some (B "identity")) /\
+  ae_answer Negotiate.parse_q_dec 404 true (Some (B "identity;q=nan, gzip;q=0")) = (404, Some (B "identity")) /\
+  ae_answer Negotiate.parse_q_dec 200 false (Some (B "gzip;q=inf, br")) = (200, Some (B "identity")) /\
+  sort_weights [(B "gzip", FNan); (B "br", FVal 1)] = Panic /\
+  sort_weights [(B "gzip", FVal 1); (B "br", FVal 3); (B "zstd", FVal 1)] = Ok [(B "br", FVal 3); (B "gzip", FVal 1); (B "zstd", FVal 1)].
 Proof. vm_compute. repeat split. Qed.
 Example ex_get_last : query_script false (B "a=1&b=2&a=3") (B "a") [true; false; false] = Ok [Some (B "3"); Some (B "1"); None].
 Proof. vm_compute. reflexivity. Qed.
